@@ -31,6 +31,8 @@ def solve(hyps, goal, axioms=(), timeout_ms=10000, want_model=True):
     from .inst import pointwise_check
     t0 = time.time()
     hyps = list(hyps)
+    if mentions_decl(hyps + [goal], "str_lt"):
+        hyps = hyps + str_order_quantified()
     qf = [h for h in hyps if not has_quant(h)]
     qh = [h for h in hyps if has_quant(h)]
     quantified = bool(qh) or has_quant(goal)
@@ -119,6 +121,9 @@ class FnReport:
 def make_args(ex, key, spec):
     """fresh symbolic arguments from the real signature (annotations) or the sidecar's arg_types"""
     fn, modpath, cls = ex.repo.func(key)
+    real_cls = cls
+    if ex.repo.outer_key(key) is not None:
+        cls = None      # a nested def has no implicit receiver
     decs = [ast.unparse(d) for d in fn.decorator_list]
     args = {}
     params = [p.arg for p in fn.args.posonlyargs + fn.args.args + fn.args.kwonlyargs]
@@ -154,7 +159,37 @@ def make_args(ex, key, spec):
             args[p] = None
         else:
             args[p] = fresh(t, p)
-    return args, fn, modpath, cls
+    return args, fn, modpath, real_cls
+
+
+def capture_closure(ex, key, spec):
+    """nested def: run the enclosing function on symbolic arguments until the def statement is reached and
+    return (FuncV with its real closure environment, path state at that point)"""
+    from .exec import _Captured
+    from .spec import Spec
+    okey = ex.repo.outer_key(key)
+    ospec = ex.specs.get(okey) if ex.specs.has(okey) else Spec(okey)
+    ospec2 = Spec(okey, arg_types=dict(getattr(spec, "outer_arg_types", {}) or ospec.arg_types))
+    oargs, ofn, omod, ocls = make_args(ex, okey, ospec2)
+    st = St()
+    for c in getattr(spec, "outer_pre", []):
+        st = st.assume(c(NS(oargs)))
+    # the def of an inner function nested two levels down is reached by calling the intermediate function: the
+    # capture key is matched on FuncV.key, which the executor builds as <outer key>.<name>
+    ex.capture = (key.split("#")[0], [])
+    ex.cur_key = okey
+    try:
+        for _ in ex.run_function(FuncV(ofn, omod, cls=ocls, key=okey), oargs, st):
+            pass
+    except _Captured:
+        pass
+    finally:
+        cap = ex.capture[1]
+        ex.capture = None
+        ex.cur_key = None
+    if not cap:
+        raise PyvcUnsupported(f"nested function {key} was not defined on any explored path of {okey}")
+    return cap[0][0], cap[0][1], oargs
 
 
 def verify_function(ex, key, timeout_ms=10000, extra_pre=()):
@@ -163,10 +198,17 @@ def verify_function(ex, key, timeout_ms=10000, extra_pre=()):
     t0 = time.time()
     spec = ex.specs.get(key)
     try:
+        closure_fv, closure_st, outer_args = None, None, None
+        if ex.repo.outer_key(key) is not None:
+            closure_fv, closure_st, outer_args = capture_closure(ex, key, spec)
         args, fn, modpath, cls = make_args(ex, key, spec)
+        if outer_args is not None:
+            args_ns = dict(args)
+            args_ns["outer"] = NS(outer_args)
+            args_ns["closure"] = NS({k: v for k, v in (closure_fv.closure or {}).items() if not k.startswith("__")})
         rep.src_hash = ex.repo.source_hash(fn, modpath)
-        a = NS(args)
-        st = St()
+        a = NS(args if outer_args is None else args_ns)
+        st = St() if closure_st is None else closure_st
         pre_conds = []
         from contracts import common as _cm
         unfold = set(getattr(spec, "unfold", ()))
@@ -189,7 +231,7 @@ def verify_function(ex, key, timeout_ms=10000, extra_pre=()):
         ex.obligations = []
         ex.iface_used = set()
         n0 = ex.solver_calls
-        fv = FuncV(fn, modpath, cls=cls, key=key)
+        fv = FuncV(fn, modpath, cls=cls, key=key) if closure_fv is None else closure_fv
         outs = list(ex.run_function(fv, args, st))
         ex.cur_key = None
         axioms = ex.base_axioms()
